@@ -248,10 +248,24 @@ func runUpd(c map[string]any, ev map[string]any) error {
 		return err
 	}
 	old := bitmapOf(c["old"])
-	w, err := sim.NewWorld(sim.WorldOpts{Accounts: []sim.Acct{
-		{Login: "adm", Name: "Admin", Password: "ap"},
-		{Login: "x", Name: "X", Password: "xp"},
-	}})
+	near, _ := c["near"].(string)
+	edited, bystander := "x", ""
+	switch near {
+	case "", "none":
+	case "case":
+		edited, bystander = "bob", "Bob"
+	case "prefix":
+		edited, bystander = "bob", "bo"
+	case "suffix":
+		edited, bystander = "bob", "bobby"
+	default:
+		return fmt.Errorf("upd: near %q", near)
+	}
+	accts := []sim.Acct{{Login: "adm", Name: "Admin", Password: "ap"}, {Login: edited, Name: "X", Password: "xp"}}
+	if bystander != "" {
+		accts = append(accts, sim.Acct{Login: bystander, Name: "Bystander", Password: "bp"})
+	}
+	w, err := sim.NewWorld(sim.WorldOpts{Accounts: accts})
 	if err != nil {
 		// the world's own self-check failed (accounts without privileges did not load as such): recorded, the
 		// trace specification reports that the case did not run; the file-level cases of the same run are judged
@@ -263,11 +277,11 @@ func runUpd(c map[string]any, ev map[string]any) error {
 	if err := setAccess(w, "adm", sim.AllAccess()); err != nil {
 		return err
 	}
-	if err := setAccess(w, "x", old); err != nil {
+	if err := setAccess(w, edited, old); err != nil {
 		return err
 	}
 	x := w.Dial("")
-	if rep, err := x.Login(sim.LoginOpts{Login: "x", Password: "xp", Name: "X"}); err != nil || rep.Err != 0 {
+	if rep, err := x.Login(sim.LoginOpts{Login: edited, Password: "xp", Name: "X"}); err != nil || rep.Err != 0 {
 		return fmt.Errorf("upd: login x: %v err=%d", err, rep.Err)
 	}
 	lwire := []int{}
@@ -277,6 +291,18 @@ func runUpd(c map[string]any, ev map[string]any) error {
 				lwire = sim.Ints(b)
 			}
 		}
+	}
+	var by *sim.Client
+	ev["bn354"], ev["bwire"], ev["bauth"], ev["bdisk"] = 0, []int{}, []int{}, []int{}
+	if bystander != "" {
+		if err := setAccess(w, bystander, bitmapOf(c["B"])); err != nil {
+			return err
+		}
+		by = w.Dial("")
+		if rep, err := by.Login(sim.LoginOpts{Login: bystander, Password: "bp", Name: "By"}); err != nil || rep.Err != 0 {
+			return fmt.Errorf("upd: login bystander: %v err=%d", err, rep.Err)
+		}
+		by.Drain()
 	}
 	adm := w.Dial("")
 	if rep, err := adm.Login(sim.LoginOpts{Login: "adm", Password: "ap", Name: "Admin"}); err != nil || rep.Err != 0 {
@@ -290,10 +316,10 @@ func runUpd(c map[string]any, ev map[string]any) error {
 	var id uint32
 	switch intOf(c["via"]) {
 	case 353:
-		id = adm.Send(sim.TSetUser, sim.Fld(sim.FUserLogin, sim.Obfuscate([]byte("x"))), sim.Fld(sim.FUserName, []byte("X")),
+		id = adm.Send(sim.TSetUser, sim.Fld(sim.FUserLogin, sim.Obfuscate([]byte(edited))), sim.Fld(sim.FUserName, []byte("X")),
 			sim.Fld(sim.FUserPassword, []byte{0}), sim.Fld(sim.FUserAccess, bits[:]))
 	case 349:
-		id = adm.Send(sim.TUpdateUser, sim.Fld(sim.FData, encSub(sim.Fld(sim.FUserLogin, sim.Obfuscate([]byte("x"))),
+		id = adm.Send(sim.TUpdateUser, sim.Fld(sim.FData, encSub(sim.Fld(sim.FUserLogin, sim.Obfuscate([]byte(edited))),
 			sim.Fld(sim.FUserName, []byte("X")), sim.Fld(sim.FUserPassword, []byte{0}), sim.Fld(sim.FUserAccess, bits[:]))))
 	default:
 		return fmt.Errorf("upd: via %v", c["via"])
@@ -324,6 +350,30 @@ func runUpd(c map[string]any, ev map[string]any) error {
 			}
 		}
 	}
+	if by != nil {
+		if !by.ServerDone() {
+			_ = by.Settle()
+		}
+		bn, bw := 0, []int{}
+		for _, f := range by.Drain() {
+			if f.IsReply == 0 && f.Type == sim.TUserAccess {
+				bn++
+				if b, ok := f.Get(sim.FUserAccess); ok {
+					bw = sim.Ints(b)
+				}
+			}
+		}
+		ev["bn354"], ev["bwire"] = bn, bw
+		ba := []int{}
+		if cc := by.ServerConn(); cc != nil {
+			for i := 0; i < 64; i++ {
+				if cc.Authorize(i) {
+					ba = append(ba, i)
+				}
+			}
+		}
+		ev["bauth"] = ba
+	}
 	ev["lwire"] = lwire
 	ev["n354"] = n354
 	ev["uwire"] = uwire
@@ -344,10 +394,15 @@ func runUpd(c map[string]any, ev map[string]any) error {
 	if err != nil {
 		return fmt.Errorf("upd: reload accounts: %w", err)
 	}
-	if a := fresh.Get("x"); a != nil {
+	if a := fresh.Get(edited); a != nil {
 		disk = sim.Ints(a.Access[:])
 	}
 	ev["disk"] = disk
+	if bystander != "" {
+		if a := fresh.Get(bystander); a != nil {
+			ev["bdisk"] = sim.Ints(a.Access[:])
+		}
+	}
 	return nil
 }
 
